@@ -208,6 +208,12 @@ def record(args):
                         "X": None if r1 else X.tolist()})
             out.append({"id": rid + "p", "rec": "pair", "low": outl, "high": out_hi, "n": n, "m": m, "L": L, "g": g,
                         "mode": mode, "score": name})
+            if mode == "contains":  # growth: the shift structure of the interval construction itself
+                from skchange.change_detectors.seeded_binseg import make_seeded_intervals
+
+                ss, ee = make_seeded_intervals(n, 2 * m, L, g)
+                out.append({"id": rid + "i", "rec": "intervals", "n": n, "m": m, "L": L, "g": g, "minlen": 2 * m, "mode": mode,
+                            "score": "make_seeded_intervals", "starts": [int(x) for x in ss], "ends": [int(x) for x in ee]})
         except RuntimeError:
             continue
         except Exception as e:
@@ -226,6 +232,9 @@ def run_check(chk, mode, tier, wd, detector):
     chk.assumptions = ["TLC/SANY and the Json module", "R3: deviations below tol*unit are rounding; runs with a score "
                        "within tol of the threshold are not judged"]
     cases = []
+    if mode == "contains":  # growth: shift structure of make_seeded_intervals (not a listed property)
+        stages.model_check(chk, "SeededIntervals", dict(NMax=6 if tier == "quick" else 8, StepMode="any"),
+                           ["AllAdmissible", "BlockReachesEnd", "BlockOverlaps", "NonEmpty"], wd=wd, label="A:interval-construction")
     for label, cs in stage_a_configs(mode, tier):
         stages.model_check(chk, "SeededBinseg", cs, INVS, wd=wd, label="A:" + label, coverage=(tier == "thorough"),
                            expect_actions=("Loop",))
@@ -257,9 +266,12 @@ def run_check(chk, mode, tier, wd, detector):
     verdicts = stages.validate_traces(chk, "Trace_Binseg", slim, wd=wd, label="C:binseg", batch=150)
     for t in traces:
         v = verdicts.get(t["id"])
-        chk.case({k: t[k] for k in t if k not in ("X", "splits")}, nontrivial=bool(t.get("out") or t.get("low")), key=t["id"])
+        chk.case({k: t[k] for k in t if k not in ("X", "splits")}, nontrivial=bool(t.get("out") or t.get("low") or t.get("starts")), key=t["id"])
         if v and v.startswith("skip:"):
             chk.extra["skipped_traces"] = chk.extra.get("skipped_traces", 0) + 1
+        elif v and v != "ok" and t.get("rec") == "intervals" and v.split(":", 1)[1] not in ("no_candidate_interval", "interval_not_admissible"):
+            # the shift structure is specification growth, not part of the listed property: informational
+            chk.spec_drift(f"make_seeded_intervals no longer has the block/shift structure of SeededIntervals.tla ({v.split(':', 1)[1]})")
         elif v and v != "ok":
             clause = v.split(":", 1)[1]
             chk.violation({"stage": "C", "trace": t, "verdict": v}, clause,
